@@ -949,6 +949,24 @@ class BuiltinMixin:
             return [self.raised(st, "IndexError", "pop from an empty deque")]
         return [(st, h.items.pop())]
 
+    # ------------------------------------------------------------ probes / io
+
+    def b___probe__(self, st, args, kwargs):
+        """contract-side observation point: snapshots the state under ghost['probe']"""
+        snaps = list(st.ghost.get("probes", []))
+        snap = st.fork()
+        snaps.append(snap)
+        st.ghost["probes"] = snaps
+        return [(st, NONE)]
+
+    def b_io_StringIO(self, st, args, kwargs):
+        h = HObj(("io", "StringIO"), {"__text__": VStr(z3.StringVal(""))}, {}, "StringIO")
+        return [(st, st.alloc(h))]
+
+    def b_collections_defaultdict(self, st, args, kwargs):
+        # only used as an empty per-context table (tag_namespace["extends"])
+        return [(st, st.alloc(HDict()))]
+
     # ------------------------------------------------------------ threading.Lock
 
     def b_threading_Lock(self, st, args, kwargs):
